@@ -10,6 +10,7 @@ import json
 import math
 import os
 import random
+import re
 import struct
 import vlib
 
@@ -187,6 +188,16 @@ def c10_key(rel, info, reg):
     kind = reg.get("kind", cls.split("/")[0])
     if (rel.endswith("-ulp") or rel.endswith("-small")) and not (kind == "cap" and rel.startswith("cap-bound")) and kind != "cell":
         cls = kind
+    if kind == "cell" and rel.startswith("rect-bound"):
+        # the known finding c10/rect-bound-ulp/cell/L0 is about the LONGITUDE range of a face cell: a witness that
+        # falls outside the latitude range is a different failure and gets a key of its own
+        try:
+            m = re.match(r"lat\[([^,]+),([^\]]+)\]", reg.get("rect", ""))
+            lo, hi, lat = float(m.group(1)), float(m.group(2)), float(info["lat"])
+            if not (lo <= lat <= hi):
+                rel += "-lat"
+        except Exception:
+            pass
     return "c10/%s/%s" % (rel, cls)
 
 
